@@ -614,6 +614,10 @@ Next:
           }
         }
       }
+      else {
+        // Operand count doesn't match this signature.
+        continue;
+      }
 
       if (j == op_count) {
         if (!local_imm_out_of_range) {
